@@ -579,4 +579,51 @@ theorem resp_hincrbyfloat (now : Int) (k field : Bytes) (delta : F64) :
     Resp now (fun s => Api.hincrbyfloat s now k field delta) :=
   resp_write (fun s => hincrbyfloat_eq s now k field delta)
 
+/-! ### ZUNIONSTORE / ZINTERSTORE: compute, then look the destination up, then store -/
+
+theorem resp_zstore (now : Int) (union : Bool) (dst : Bytes) (keys : List Bytes) (weights : List F64)
+    (agg : Bytes) : Resp now (fun s => Api.zstore union s now dst keys weights agg) := by
+  intro s s' g
+  show RSim now (Api.zstore union s now dst keys weights agg) (Api.zstore union s' now dst keys weights agg)
+  unfold Api.zstore
+  simp only
+  have hcore : RSim now ((if union = true then Api.zunionCore else Api.zinterCore) s now keys weights agg)
+      ((if union = true then Api.zunionCore else Api.zinterCore) s' now keys weights agg) := by
+    cases union
+    · exact zinterCore_good keys weights agg g
+    · exact zunionCore_good keys weights agg g
+  obtain ⟨e, g1⟩ := hcore
+  cases hw : (if union = true then Api.zunionCore else Api.zinterCore) s now keys weights agg with
+  | mk s1 r =>
+    cases hw' : (if union = true then Api.zunionCore else Api.zinterCore) s' now keys weights agg with
+    | mk s1' r' =>
+      rw [hw, hw'] at e g1
+      simp only at e g1
+      subst e
+      cases r with
+      | none => exact ⟨rfl, g1⟩
+      | some o =>
+        cases o with
+        | none => exact ⟨rfl, g1⟩
+        | some items =>
+          simp only
+          obtain ⟨⟨_, g2⟩, _⟩ := writeKey_good (commit_good g1) dst (some (.zset DsZSet.empty))
+          cases hd : writeKey (Api.commit s1) now dst (some (.zset DsZSet.empty)) with
+          | mk s2 ok =>
+            cases hd' : writeKey (Api.commit s1') now dst (some (.zset DsZSet.empty)) with
+            | mk s2' ok' =>
+              rw [hd, hd'] at g2
+              simp only at g2 ⊢
+              split
+              · refine ⟨rfl, ?_⟩
+                apply emit_good
+                exact setSignalled_good (delKey_good g2 dst) _ _ (by rw [g2.signalled])
+              · refine ⟨rfl, ?_⟩
+                apply emit_good
+                apply signal_good
+                simp only [fresh]
+                rw [g2.nextId]
+                exact modMeta_good (setNextId_good g2 (s2'.nextId + 1)) dst _
+                  (adoptRec s2'.nextId (.zset _)) (fun _ => rfl) (fun t d => recOf_adopt t dst s2'.nextId _ d)
+
 end NodisVerif.Proofs.C10
